@@ -172,7 +172,7 @@ pub fn record(seed: u64, tier: &str, out: &str) {
             raws.push(k.wrapping_mul(1 << 53).wrapping_sub(1));
             raws.push(u64::MAX - k * 511);
         }
-        for _ in 0..60 {
+        for _ in 0..(if thorough { 6000 } else { 60 }) {
             raws.push(rng.u64());
         }
         let r = catch(|| raws.iter().map(|&raw| (a..b).gen_from_u64(raw)).collect::<Vec<f64>>());
@@ -225,7 +225,11 @@ pub fn record(seed: u64, tier: &str, out: &str) {
     }
     // consecutive draws from a small range are not periodic
     for len in [2i64, 3, 4, 8, 16, 256] {
-        for s in [42u64, 1, rng.u64()] {
+        let mut seeds = vec![42u64, 1, rng.u64()];
+        if thorough {
+            seeds.extend((0..37).map(|_| rng.u64()));
+        }
+        for s in seeds {
             let mut g = LibRng::from_seed(s);
             let vals: Vec<i64> = (0..4096).map(|_| g.next(0..len)).collect();
             t.ev(json!({"ev": "period", "op": "next", "range_len": len, "seed": s.to_string(), "vals": vals}));
